@@ -34,14 +34,14 @@ import (
 const idGenericNack = 0x80000000
 
 type WriteRec struct {
-	Idx  int
-	Data []byte
-	ID   uint32 // command_id when the call carried at least a header
-	Seq  int32  // sequence_number when the call carried at least a header
-	Full bool   // the call carried exactly one complete frame (command_length == len)
-	ByReader bool // written by the goroutine that reads (Watch): a generic_nack
-	gate chan struct{}
-	held bool
+	Idx      int
+	Data     []byte
+	ID       uint32 // command_id when the call carried at least a header
+	Seq      int32  // sequence_number when the call carried at least a header
+	Full     bool   // the call carried exactly one complete frame (command_length == len)
+	ByReader bool   // written by the goroutine that reads (Watch): a generic_nack
+	gate     chan struct{}
+	held     bool
 }
 
 type timeoutErr struct{}
@@ -206,6 +206,14 @@ func (t *Transport) SetReadDeadline(d time.Time) error {
 func (t *Transport) SetWriteDeadline(time.Time) error { return nil }
 
 // ---- script side
+
+// ArmDeadlines: from now on a parked Read fails with a timeout once the read deadline set by the library has passed.
+func (t *Transport) ArmDeadlines() {
+	t.mu.Lock()
+	t.UseDeadlines = true
+	t.cond.Broadcast()
+	t.mu.Unlock()
+}
 
 // ReleaseWrite lets the held Write with that index return.
 func (t *Transport) ReleaseWrite(idx int) bool {
